@@ -198,6 +198,43 @@ Theorem timeout_loses_nothing_copying : forall P (F : framer P) bufsize tz c evs
 Proof. exact timeout_loses_nothing_copying_proof. Qed.
 Print Assumptions timeout_loses_nothing_copying.
 
+(* The buffer-filling blocking receiver (_BufferedReceiverImpl.receive, Conc/BlockRecv.v bloopb/breceiveb): the
+   TimeoutError is raised while the consumer's write buffer is exported.  Generic form: for any consumer given by
+   next(None) / get_write_buffer() / next(n) and predicates Dr ("drained") and Iv ("a call may start here") such that
+   a StopIteration leaves a drained state, next(None) on a drained state is a no-op, next(None) on the exported state
+   un-exports it into a drained state that re-exports the same view, the conclusion of timeout_loses_nothing holds. *)
+Theorem timeout_loses_nothing_buffered :
+  forall (C R : Type) (bdrain : C -> C * option R) (broom : C -> option (C * nat)) (bfeedn : C -> bytes -> C * option R)
+         (Dr Iv : C -> Prop),
+    (forall c c', Iv c -> bdrain c = (c', None) -> Dr c') ->
+    (forall c, Dr c -> bdrain c = (c, None)) ->
+    (forall c c1 room, Dr c -> broom c = Some (c1, room) ->
+        exists c2, bdrain c1 = (c2, None) /\ Dr c2 /\ broom c2 = Some (c1, room)) ->
+    (forall c c1 room d c', Dr c -> broom c = Some (c1, room) -> bfeedn c1 d = (c', None) -> Dr c') ->
+    forall tz c evs c1 e1 evs1,
+      Iv c ->
+      breceiveb bdrain broom bfeedn tz c false evs = (c1, e1, evs1, BTimedOut) ->
+      exists consumed,
+        evs = consumed ++ evs1 /\ e1 = false /\
+        breceiveb bdrain broom bfeedn false c false (patient (bdata_of consumed) ++ evs1)
+        = breceiveb bdrain broom bfeedn false c1 false evs1.
+Proof. exact (@timeout_loses_nothing_buffered_proof). Qed.
+Print Assumptions timeout_loses_nothing_buffered.
+
+(* ... unconditionally for BufferedStreamDataConsumer (Stream/Consumer.v: bcnext / bc_get_write_buffer / bc_fill) over
+   ANY buffered framer; the side condition on the starting state (a consumer without a running generator has nothing
+   pending and no exported view) holds initially and after every call *)
+Theorem timeout_loses_nothing_buffered_consumer :
+  forall P (F : bframer P) h tz (c : bcstate F) evs c1 e1 evs1,
+    (bcons c = None -> balready c = 0 /\ bexported c = None) ->
+    breceiveb (bufc_drain F h) (bufc_room F h) (bufc_feed F h) tz c false evs = (c1, e1, evs1, BTimedOut) ->
+    exists consumed,
+      evs = consumed ++ evs1 /\ e1 = false /\
+      breceiveb (bufc_drain F h) (bufc_room F h) (bufc_feed F h) false c false (patient (bdata_of consumed) ++ evs1)
+      = breceiveb (bufc_drain F h) (bufc_room F h) (bufc_feed F h) false c1 false evs1.
+Proof. exact timeout_loses_nothing_buffered_consumer_proof. Qed.
+Print Assumptions timeout_loses_nothing_buffered_consumer.
+
 (* non-vacuity of the blocking theorem: a call that times out after consuming a chunk exists *)
 Example blocking_timeout_example :
   breceive (fx_next 2) 4 false [] false [BData [1%N] false; BTimeout; BData [2%N] false]
